@@ -8,7 +8,7 @@
 From Coq Require Import QArith Qabs.
 From Coq.Strings Require Import Byte.
 From EsVerif.Common Require Import Base Bytes.
-From EsVerif.C04 Require Import Gen TextModel Spec DecProofs ScanProofs WriteProofs RoundTrip CheckProofs FmtModel FmtProofs AccProofs Exec ExecProofs History ScanSpec CheckComplete NoNewline.
+From EsVerif.C04 Require Import Gen TextModel Spec DecProofs ScanProofs WriteProofs RoundTrip CheckProofs FmtModel FmtProofs AccProofs Exec ExecProofs History ScanSpec CheckComplete NoNewline TieProofs.
 Open Scope Z_scope.
 
 (* ---- integers: printf %d / scanf %d and the memory image are inverse to each other *)
@@ -319,6 +319,35 @@ Example C04_history_example :
       table_ok t /\ strings_noeol t /\ count_lines (write_text F x3b t) = 2
       /\ read_text F x3b (tdt t) 2 (write_text F x3b t) = Ok (expected F F t)).
 Proof. vm_compute. repeat split; reflexivity. Qed.
+
+(* ================================================================== round 6: the hand model is the source's loop nest
+   TieProofs.v: the writer of TextModel.v equals the double loop of WriteRows/WriteField with the conditions
+   `el < nel-1`, `fnum < mNfields-1` and the row terminator; the harness proves on every run that these conditions,
+   the terminator, the white-space-mode test, the extra-fgetc condition, the string byte loop bound, the [1:] slices and
+   the line-count increment regenerated from the source (Gen.v) are these very terms *)
+Theorem C04_source_writer_loops : forall F d fs rows, Forall (fun r : row => length r = length fs) rows ->
+  rows_loop model_elem_delim model_field_delim nl F d fs rows = write_rows F d fs rows.
+Proof. exact write_rows_is_source_loop. Qed.
+
+Theorem C04_source_text_is_loop_nest : forall F d t, table_ok t ->
+  rows_loop model_elem_delim model_field_delim nl F d (tdt t) (map (to_native_row (tdt t)) (trows t)) = write_text F d t.
+Proof. exact write_text_is_source_loop. Qed.
+
+Theorem C04_source_extra_getc : forall P d f l,
+  read_field P d f l =
+  match fkind f with
+  | KStr w => read_str_els w (fnel f) l
+  | k => do (es, r) <- read_num_els P k d (fnel f) l;
+         Ok (es, if model_extra_getc (model_ws_mode d) 0 0 then tl r else r)
+  end.
+Proof. exact read_field_extra_getc. Qed.
+
+Theorem C04_source_string_loop : forall w : nat, str_loop_count (S w) 0 (Z.of_nat w) = w.
+Proof. exact str_loop_takes_w. Qed.
+
+Theorem C04_source_header_strip : forall fs : list fld,
+  header_dtype fs = map (fun f => (fname f, skipn model_strip (typestr f), fshape f)) fs.
+Proof. exact header_strip. Qed.
 
 (* ---- non-vacuity: a table with a blank-leading string BEFORE the numeric cell in white-space mode, and the
    same with ',' and no leading blank, meet the hypotheses; the conclusion computes *)
